@@ -377,17 +377,20 @@ where
             let run_futs = policy
                 .other_parties()
                 .map(async |p| client.run(p, run_request.clone()).await);
-            if let Err(err) = future::try_join_all(run_futs).await
-                && let Some(url) = policy.output
-            {
-                let _ = client
-                    .output(
-                        url.clone(),
-                        Err(OutputError::RequestRunError {
-                            source: Box::new(err),
-                        }),
-                    )
-                    .await;
+            if let Err(err) = future::try_join_all(run_futs).await {
+                // A follower could not be asked to run, so this computation cannot complete.
+                // End the policy here, whether or not there is an output destination to notify;
+                // dropping the state machine returns the concurrency permit.
+                if let Some(url) = &policy.output {
+                    let _ = client
+                        .output(
+                            url.clone(),
+                            Err(OutputError::RequestRunError {
+                                source: Box::new(err),
+                            }),
+                        )
+                        .await;
+                }
                 return ControlFlow::Break(());
             }
             debug!("followers are running");
